@@ -6,6 +6,10 @@ ALL = ["C%02d" % i for i in range(1, 21)]
 
 # id -> (technique, level text, level note, design ref)
 CLAIMED = {
+ "C14": ("property-based testing (rapid): reference ordered-tree parser + differential vs encoding/json on the addressed span, over generated documents, paths, options and entry points",
+         "Generated documents and paths (drawn by walking the reference tree) are resolved through nine AST entry points under all search option combinations; existence, Raw text, typed accessors, Interface/Map/Array conversions, iterators and the Preorder event stream are compared with the reference tree and with encoding/json on the addressed span. Exploration.",
+         "Trusted: harness/ref.Parse (ordered tree keeping duplicates), encoding/json, strconv.",
+         "DESIGN.md §7 C14"),
  "C02": ("property-based testing (rapid): sandwich oracle (structural recogniser below, encoding/json.Valid above) over grammar-generated, mutated and raw inputs across 37 consuming entry points",
          "Generated valid documents, their structural mutants, a string-geometry sweep aimed at SIMD block edges and raw bytes are offered to every JSON-consuming entry point; anything the harness's structural recogniser rejects must be rejected, anything encoding/json.Valid accepts must be accepted by type-agnostic entry points, raw captures must be structural, decoder.Skip must delimit the first value. Exploration.",
          "Trusted: harness/ref.Structural and encoding/json.Valid. Two known findings (AST entry points ignore trailing bytes; native scanner accepts unterminated strings whose length is a multiple of 32) are classified and excluded.",
